@@ -444,7 +444,7 @@ example : main exFs { exCfg with checkSymlinks := false } [47,108] = .serve [47,
 example : checkInDocumentRoot exFs { exCfg with checkSymlinks := false } [47,46,46,47,108] = some [47,114,47,108] := by decide +kernel
 -- PATH_INFO from a request target: `%2e%2e` decodes to `..`, `%00` cuts the string
 example : pathInfoOfTarget [47,37,50,101,37,50,101,47,97,37,48,48,98,63,113] = [47,46,46,47,97] := by
-  simp [pathInfoOfTarget, urldecode, hexVal, cstr]
+  simp [pathInfoOfTarget, urldecode, hexVal, cstr, Gen.queryCh, Gen.urldecPlus, Gen.urldecPct]
 end Examples
 
 end Cppcms.C13.Props
